@@ -13,6 +13,8 @@ Proof.
   - intros closed m. unfold gen_cfg, gen_discard; simpl. destruct closed; simpl; intro H; try discriminate.
     destruct m; [discriminate|lia].
   - intros total m. unfold gen_cfg, gen_evict; simpl. intro H. apply Nat.leb_gt in H. exact H.
+  - (* a drain loop that swallows an exception must not claim the output was drained *)
+    split; intros x; unfold gen_cfg, gen_drains; simpl; destruct x; simpl; intro H; try discriminate H; reflexivity.
 Qed.
 
 Theorem C32_source_exclusive_owner : forall max timeout specs sch,
